@@ -26,6 +26,7 @@ type Env struct {
 	depth      int
 	iterSeen   func() (string, bool)
 	inOld      bool
+	inQuant    int // >0: evaluating under a quantifier (bound variables may occur in terms, also inside expanded spec functions)
 }
 
 func (x *Exec) topEnv(st *State) *Env {
@@ -68,7 +69,7 @@ func (e *Env) lookup(name string) (Val, bool) {
 // loaded integers, "pointers stored in the heap designate objects allocated earlier")
 // for loads of closed terms; commit() adds them to the real path condition.
 func (e *Env) factState() (*State, func()) {
-	if e.st == nil || len(e.qv) > 0 {
+	if e.st == nil || len(e.qv) > 0 || e.inQuant > 0 {
 		return nil, func() {}
 	}
 	w := e.st.alloc
@@ -493,7 +494,7 @@ func (e *Env) equal(l, r Val) string {
 	x := e.x
 	if lt, ok := l.(TV); ok {
 		if rt, ok := r.(TV); ok {
-			if isString(lt.Ty) && isString(rt.Ty) && len(e.qv) == 0 && e.st != nil {
+			if isString(lt.Ty) && isString(rt.Ty) && len(e.qv) == 0 && e.inQuant == 0 && e.st != nil {
 				x.strExt(e.st, lt.T, rt.T)
 			}
 			if isBool(lt.Ty) != isBool(rt.Ty) && lt.Ty != types.Typ[types.UntypedNil] && rt.Ty != types.Typ[types.UntypedNil] {
@@ -588,7 +589,7 @@ func (e *Env) call(c *CallE) Val {
 			e.errf("remove needs a sequence")
 		}
 		p := x.evalInt(e, c.Args[1])
-		if e.st == nil || len(e.qv) > 0 {
+		if e.st == nil || len(e.qv) > 0 || e.inQuant > 0 {
 			e.errf("remove() only in closed contexts")
 		}
 		na := x.reg.fresh("removed")
@@ -941,7 +942,9 @@ func (x *Exec) ghostStore(st *State, env *Env, ga GhostAssign) {
 		x.P.qcount++
 		bv := fmt.Sprintf("%s!%d", qv.Name, x.P.qcount)
 		env.qv = append(env.qv, map[string]Val{qv.Name: TV{bv, t.Go}})
+		env.inQuant++
 		rhs := x.scalar(env.eval(ga.RHS))
+		env.inQuant--
 		env.qv = env.qv[:len(env.qv)-1]
 		na := x.reg.fresh(keys[0])
 		x.reg.declare(na, x.keySort(keys[0]))
@@ -1007,6 +1010,7 @@ func (e *Env) quant(q *Quant) Val {
 		}
 	}
 	e.qv = append(e.qv, bind)
+	e.inQuant++
 	body := x.evalBool(e, q.Body)
 	var trigs [][]string
 	for _, tr := range q.Trig {
@@ -1018,6 +1022,7 @@ func (e *Env) quant(q *Quant) Val {
 		trigs = append(trigs, ts)
 	}
 	e.qv = e.qv[:len(e.qv)-1]
+	e.inQuant--
 	if len(guards) > 0 {
 		if q.All {
 			body = implies(and(guards...), body)
@@ -1323,8 +1328,8 @@ func autoTrigger(body string, names, decl []string, cov bool) (string, []string,
 		}
 	}
 	if len(full) > 0 {
-		if len(full) > 4 {
-			full = full[:4]
+		if len(full) > 12 {
+			full = full[:12]
 		}
 		return body, names, decl, full
 	}
